@@ -8,7 +8,7 @@
 From Coq Require Import ZArith List Bool Lia.
 From FV Require Import Base.Res Base.Bytes Base.GoSem Model.Headers Model.Receivers
      Model.ThriftBin Model.ThriftCompact Model.GenCall Model.ThriftLayer
-     Proofs.ThriftBinProofs Proofs.ThriftBinGoProofs Proofs.ThriftCompactProofs.
+     Proofs.ThriftBinProofs Proofs.ThriftBinGoProofs Proofs.ThriftCompactProofs Proofs.ReceiversProofs.
 Import ListNotations.
 Open Scope Z_scope.
 
@@ -818,3 +818,123 @@ Theorem binary_read_graceful fuel e t b : (2 * length b + 2 <= fuel)%nat -> grac
 Proof. intros Hf. rewrite <- pread_bin_is_gread. apply pread_bin_graceful, Hf. Qed.
 Theorem compact_read_graceful fuel e t b : (4 * length b + 2 <= fuel)%nat -> graceful (gcread fuel e t b).
 Proof. intros Hf. rewrite <- pread_compact_is_gcread. apply pread_compact_graceful, Hf. Qed.
+
+(** * The layer as a function of the bytes alone, and the processor FSimpleServer is handed *)
+Lemma thrift_layer_total_fbin e pm h : handler_writable fbin_codec e pm h ->
+  forall b, graceful (thrift_layer fbin_codec e pm h b).
+Proof. intros Hh b. apply thrift_layer_graceful_fbin; [exact Hh|apply Nat.le_refl]. Qed.
+Lemma thrift_layer_total_fcompact e pm h : handler_writable fcompact_codec e pm h ->
+  forall b, graceful (thrift_layer fcompact_codec e pm h b).
+Proof. intros Hh b. apply thrift_layer_graceful_fcompact; [exact Hh|apply Nat.le_refl]. Qed.
+
+Lemma wf_msgb_sound f : wf_msgb f = true -> wf_msg f.
+Proof.
+  unfold wf_msgb. rewrite andb_true_iff, forallb_forall. intros [Hb Hl]. split.
+  - apply Forall_forall. intros x Hx. specialize (Hb x Hx). unfold byte_ok. lia.
+  - lia.
+Qed.
+
+Lemma gen_process_graceful cd e pm h :
+  (forall b, graceful (thrift_layer cd e pm h b)) ->
+  forall f, graceful (on_bytes (gen_process cd e pm h) f).
+Proof.
+  intros Ht f. unfold on_bytes. destruct (wf_msgb f) eqn:E; [|exact I].
+  unfold gen_process. apply graceful_bind'; [|intros; exact I].
+  apply process_request_graceful; [exact Ht|apply wf_msgb_sound, E].
+Qed.
+
+(** * The FProtocol guards only turn values into errors *)
+Lemma pdec_guard_mono P e fuel :
+  (forall d d' t st x, pdec P true fuel d e t st = Ok x -> pdec P false fuel d' e t st = Ok x) /\
+  (forall d d' et n st x, pdec_seq P true fuel d e et n st = Ok x -> pdec_seq P false fuel d' e et n st = Ok x) /\
+  (forall d d' kt vt n st x, pdec_pairs P true fuel d e kt vt n st = Ok x -> pdec_pairs P false fuel d' e kt vt n st = Ok x) /\
+  (forall d d' decls last st x, pdec_fields P true fuel d e decls last st = Ok x -> pdec_fields P false fuel d' e decls last st = Ok x).
+Proof.
+  induction fuel as [|f [IH1 [IH2 [IH3 IH4]]]].
+  - repeat split; intros until x; cbn; try discriminate; destruct (n <=? 0); auto; discriminate.
+  - repeat split; intros until x.
+    + rewrite !pdec_S. unfold size_refused, depth_refused. cbn [andb].
+      destruct (shape_of e t); auto.
+      * destruct (p_list_hdr P st) as [[n s1]| | |]; cbn [bind]; auto.
+        destruct (p_rem P s1 <? n); [discriminate|].
+        destruct (pdec_seq P true f d e t0 n s1) as [y| | |] eqn:E; cbn [bind]; try discriminate.
+        rewrite (IH2 _ d' _ _ _ _ E). auto.
+      * destruct (p_list_hdr P st) as [[n s1]| | |]; cbn [bind]; auto.
+        destruct (p_rem P s1 <? n); [discriminate|].
+        destruct (pdec_seq P true f d e t0 n s1) as [y| | |] eqn:E; cbn [bind]; try discriminate.
+        rewrite (IH2 _ d' _ _ _ _ E). auto.
+      * destruct (p_map_hdr P st) as [[n s1]| | |]; cbn [bind]; auto.
+        destruct (p_rem P s1 <? n); [discriminate|].
+        destruct (pdec_pairs P true f d e k v n s1) as [y| | |] eqn:E; cbn [bind]; try discriminate.
+        rewrite (IH3 _ d' _ _ _ _ _ E). auto.
+      * destruct (max_read_depth <=? d); [discriminate|].
+        destruct (pdec_fields P true f (d + 1) e fs 0 st) as [y| | |] eqn:E; cbn [bind]; try discriminate.
+        rewrite (IH4 _ (d' + 1) _ _ _ _ E). auto.
+    + rewrite !pdec_seq_S. destruct (n <=? 0); auto.
+      destruct (pdec P true f d e et st) as [[y s1]| | |] eqn:E1; cbn [bind]; try discriminate.
+      rewrite (IH1 _ d' _ _ _ E1). cbn [bind].
+      destruct (pdec_seq P true f d e et (n - 1) s1) as [z| | |] eqn:E2; cbn [bind]; try discriminate.
+      rewrite (IH2 _ d' _ _ _ _ E2). auto.
+    + rewrite !pdec_pairs_S. destruct (n <=? 0); auto.
+      destruct (pdec P true f d e kt st) as [[y s1]| | |] eqn:E1; cbn [bind]; try discriminate.
+      rewrite (IH1 _ d' _ _ _ E1). cbn [bind].
+      destruct (pdec P true f d e vt s1) as [[y2 s2]| | |] eqn:E2; cbn [bind]; try discriminate.
+      rewrite (IH1 _ d' _ _ _ E2). cbn [bind].
+      destruct (pdec_pairs P true f d e kt vt (n - 1) s2) as [z| | |] eqn:E3; cbn [bind]; try discriminate.
+      rewrite (IH3 _ d' _ _ _ _ _ E3). auto.
+    + rewrite !pdec_fields_S.
+      destruct (p_field_hdr P last st) as [[[wt id] s1]| | |]; cbn [bind]; auto.
+      destruct (wt =? 0); auto.
+      destruct (ftyp_of decls id).
+      * destruct (pdec P true f d e t s1) as [[y s2]| | |] eqn:E1; cbn [bind]; try discriminate.
+        rewrite (IH1 _ d' _ _ _ E1). cbn [bind].
+        destruct (pdec_fields P true f d e decls id s2) as [z| | |] eqn:E2; cbn [bind]; try discriminate.
+        rewrite (IH4 _ d' _ _ _ _ E2). auto.
+      * destruct (p_skip P f wt s1) as [s2| | |]; cbn [bind]; try discriminate. apply IH4.
+Qed.
+
+(** whatever the generated Read accepts through FProtocol, the bare TBinaryProtocol /
+    TCompactProtocol readers of C02 / C03 accept with the same value *)
+Theorem guarded_read_refines_bin fuel e t b x : pread bin_prim true fuel e t b = Ok x -> gread fuel e t b = Ok x.
+Proof.
+  rewrite <- pread_bin_is_gread. unfold pread.
+  destruct (pdec bin_prim true fuel 0 e t (p_init bin_prim b)) as [[w s]| | |] eqn:E; cbn [bind]; try discriminate.
+  rewrite (proj1 (pdec_guard_mono bin_prim e fuel) _ 0 _ _ _ E). auto.
+Qed.
+Theorem guarded_read_refines_compact fuel e t b x : pread compact_prim true fuel e t b = Ok x -> gcread fuel e t b = Ok x.
+Proof.
+  rewrite <- pread_compact_is_gcread. unfold pread.
+  destruct (pdec compact_prim true fuel 0 e t (p_init compact_prim b)) as [[w s]| | |] eqn:E; cbn [bind]; try discriminate.
+  rewrite (proj1 (pdec_guard_mono compact_prim e fuel) _ 0 _ _ _ E). auto.
+Qed.
+
+(** * Statements as Props/C05.v quotes them *)
+Lemma thrift_layer_graceful_bare fuel e pm h b :
+  (layer_fuel (length b) <= fuel)%nat ->
+  (handler_writable bin_codec e pm h -> graceful (thrift_layer_of bin_codec fuel e pm h b)) /\
+  (handler_writable compact_codec e pm h -> graceful (thrift_layer_of compact_codec fuel e pm h b)).
+Proof.
+  intros Hf. split; intros Hh.
+  - apply thrift_layer_graceful_bin; assumption.
+  - apply thrift_layer_graceful_compact; assumption.
+Qed.
+
+Lemma generated_read_graceful fuel e t b :
+  ((2 * length b + 2 <= fuel)%nat -> graceful (gread fuel e t b)) /\
+  ((4 * length b + 2 <= fuel)%nat -> graceful (gcread fuel e t b)).
+Proof. split; [apply binary_read_graceful|apply compact_read_graceful]. Qed.
+
+Lemma skip_graceful_both fuel depth wt b p :
+  ((2 * length b + 2 <= fuel)%nat -> graceful (skip fuel depth wt b)) /\
+  ((4 * length b + 4 <= fuel)%nat -> graceful (cskip fuel depth wt (p, b))).
+Proof.
+  split; intros Hf.
+  - pose proof (proj1 (skip_good_all fuel) depth wt b Hf) as H. destruct (skip fuel depth wt b); cbn in *; auto.
+  - assert (Hc : (2 * cmu (p, b) + 2 <= fuel)%nat) by (unfold cmu; cbn [fst snd]; destruct p; lia).
+    pose proof (proj1 (cskip_good_all fuel) depth wt (p, b) Hc) as H. destruct (cskip fuel depth wt (p, b)); cbn in *; auto.
+Qed.
+
+Lemma guards_only_reject fuel e t b x :
+  (pread bin_prim true fuel e t b = Ok x -> gread fuel e t b = Ok x) /\
+  (pread compact_prim true fuel e t b = Ok x -> gcread fuel e t b = Ok x).
+Proof. split; [apply guarded_read_refines_bin|apply guarded_read_refines_compact]. Qed.
